@@ -102,12 +102,12 @@ def write_replay(prop, v):
     path = os.path.join(d, f'{h}.json')
     with open(path, 'w') as f:
         json.dump({'property': prop, 'kind': v['kind'], 'case': v['case'], 'hash_seed': v.get('hash_seed'),
-                   'detail': v.get('detail', ''), 'shrunk': v.get('shrunk', True),
+                   'detail': v.get('detail', ''), 'shrunk': v.get('shrunk', True), 'prelude': bool(v.get('prelude', False)),
                    'repro': f'./check --replay replays/{prop}/{h}.json'}, f, indent=1, ensure_ascii=True)
     return os.path.relpath(path, VERIF)
 
 
-def replay_case_subprocess(prop, case, hash_seed, use_findings):
+def replay_case_subprocess(prop, case, hash_seed, use_findings, prelude=False):
     """Re-execute one case in a fresh interpreter under the given hash seed. Returns (verdict, text)."""
     code = (
         'import sys, json; sys.path.insert(0, %r)\n'
@@ -115,7 +115,7 @@ def replay_case_subprocess(prop, case, hash_seed, use_findings):
         'sys.exit(runner.replay_inline(json.loads(sys.stdin.read())))\n' % VERIF)
     hs = hash_seed if hash_seed not in (None, 'random') else 0
     p = subprocess.run([PY, '-W', 'ignore', '-c', code], input=json.dumps(
-        {'property': prop, 'case': case, 'use_findings': use_findings}).encode(),
+        {'property': prop, 'case': case, 'use_findings': use_findings, 'prelude': prelude}).encode(),
         env=child_env(hs), cwd=VERIF, stdout=subprocess.PIPE, stderr=subprocess.STDOUT)
     return p.returncode, p.stdout.decode(errors='replace')
 
@@ -125,6 +125,9 @@ def replay_inline(req):
     prop = req['property']
     mod = importlib.import_module(f'pbt.props.{prop.lower()}')
     ctx = Ctx(prop, 'quick', 0, 0, os.environ.get('PYTHONHASHSEED', 'random'))
+    if req.get('prelude'):
+        from pbt.common import failed_calls_prelude
+        failed_calls_prelude()
     try:
         if req.get('use_findings', True):
             mod.check_case(req['case'], ctx)
@@ -177,7 +180,7 @@ def replay_regressions(prop):
         if not name.startswith(prop + '_') or not name.endswith('.json'):
             continue
         data = json.load(open(os.path.join(d, name)))
-        rc, text = replay_case_subprocess(prop, data['case'], data.get('hash_seed'), True)
+        rc, text = replay_case_subprocess(prop, data['case'], data.get('hash_seed'), True, bool(data.get('prelude')))
         if rc == 1:
             failures.append((os.path.join('replays', 'regression', name), text.strip()[:600]))
         elif rc not in (0, 3):
@@ -188,7 +191,7 @@ def replay_regressions(prop):
 def main(argv):
     if len(argv) >= 2 and argv[0] == '--replay':
         data = json.load(open(argv[1]))
-        rc, text = replay_case_subprocess(data['property'], data['case'], data.get('hash_seed'), True)
+        rc, text = replay_case_subprocess(data['property'], data['case'], data.get('hash_seed'), True, bool(data.get('prelude')))
         print(text.strip())
         if rc == 1:
             print(f"VIOLATION property={data['property']} replay={argv[1]}")
@@ -254,7 +257,7 @@ def main(argv):
     for k in sorted(by_kind):
         v = by_kind[k][1]
         path = write_replay(prop, v)
-        out_lines.append((f'VIOLATION property={prop} replay={path}', f'  kind={k} detail={v["detail"][:600]}'))
+        out_lines.append((f'VIOLATION property={prop} replay={path}', f'  kind={k} detail={v["detail"][:600]}' + (' [in a process that first made the failed-calls prelude: common.failed_calls_prelude]' if v.get('prelude') else '')))
 
     sample_list = [samples[h] for h in sorted(samples)[:10]]
     cov = {
